@@ -218,8 +218,10 @@ pub fn seed_state_at(cycles: usize, slots: usize, offset: usize) -> State {
 /// below `cap` (no other checks; used to place the boundary windows).
 pub fn find_retirement(cap: usize) -> Option<usize> {
     let mut arena: Arena<Payload> = Arena::new();
+    let mut reached = 0usize;
     let r = guarded(|| {
         for c in 0..cap {
+            reached = c;
             let id = arena.new_node(Payload(0));
             if slot_of(id) > 0 {
                 return Some(c);
@@ -228,7 +230,12 @@ pub fn find_retirement(cap: usize) -> Option<usize> {
         }
         None
     });
-    r.ok().flatten()
+    match r {
+        Ok(x) => x,
+        // the library panicked in cycle `reached`: that is where the boundary is (the windows
+        // around it will meet the panic as an outcome of a valid call)
+        Err(_) => Some(reached + 1),
+    }
 }
 
 pub struct IdDfsStats {
